@@ -32,8 +32,7 @@ CLAIMED = {
             "constructors with parent=, create_*, clone+attach, merge, link/clean) from every API-built well-formed pre-state over 1 Document + 3 Sections "
             "or 1 Document + 2 Sections + 2 Properties with symbolic names: whether the call succeeds or raises, the post-state is a well-formed tree "
             "(each child listed exactly once in exactly its parent's list, back-pointers, acyclic, document = root) and path/traversal queries terminate.",
-            "Histories through states larger than the universe are outside the claim; the input classes of the open findings F-C03-cycle and "
-            "F-C03-double-attach are assumed away and replayed as KNOWN-FINDING."),
+            "Histories through states larger than the universe are outside the claim."),
     "C04": ("DESIGN.md 5/C04",
             "Same one-step harness as C03 with the predicate: sibling names pairwise distinct, names non-empty, ids canonical UUID strings; names are "
             "symbolic strings (all Unicode, length <= 1) or another object's id; plus constructors/new_id with a canonical id mutated by symbolic "
